@@ -345,7 +345,7 @@ def run(ck):
     decoders.check_rejections(ck, P, "ATOM/rejection", only_names={"trailer-check", "trailer-isize", "gzip-hcrc"})
     # the decoder's decisions (trailer, wrap, flags) are those of the reference
     from .. import condparity as _cp
-    ck.floor("SIB/ref-conditions", _cp.check(ck, P, "SIB/ref-conditions", only={"inflate.c:inflate"}), 45)
+    ck.floor("SIB/ref-conditions", _cp.check(ck, P, "SIB/ref-conditions", only={"inflate.c:inflateReset2", "inflate.c:inflateInit2", "inflate.c:inflateValidate", "inflate.c:inflateSync", "inflate.c:inflate"}), 45)
     from .. import guards as _g
     _g.crc_fold_start(ck, P)
     extend_siblings(ck, P)
